@@ -1152,7 +1152,9 @@ pub fn run(args: &Args) -> ! {
         replay(&case, &mut rep);
         rep.finish();
     }
-    let (d1, d2) = (args.tier.pick(4usize, 5usize), args.tier.pick(3usize, 4usize));
+    // 3-node half to depth 4 in both tiers: register, register, deploy, migrate is the shortest history in
+    // which a follower has to apply an update to a group it already knows (seeded change C38)
+    let (d1, d2) = (args.tier.pick(4usize, 5usize), 4usize);
     determinism_gate(Half::Single, d1);
     determinism_gate(Half::Follower, d2);
     let deadline = mc::Deadline::after(Duration::from_secs(args.tier.pick(36, 1120)));
